@@ -54,6 +54,9 @@ def _op(kind, f=None, n=0):
     return Struct("op", None, {"k": StrV(kind), "f": f if f is not None else UNIT, "n": Aff(n)})
 
 
+depth_guard = {}
+
+
 def as_iter(I, st, v):
     """IterV view of v (IterV itself, a MapV, a SliceIter over known elements, a Seq with known elements, a constant range) or None"""
     p = I.resolve(st, v)
@@ -68,6 +71,37 @@ def as_iter(I, st, v):
         return iterv(sq.elems[x.fields["pos"].const:], byref=True)
     if isinstance(x, Seq) and x.elems is not None and x.kind in ("vec", "array", "bytes", "slice"):
         return iterv(x.elems, byref=isinstance(p, Ptr))
+    if isinstance(x, Struct) and x.adt.startswith("crate::") and not depth_guard.get("unroll"):
+        # a crate-local iterator type: its own `next` is interpreted until it yields None - when every step is deterministic (a counter
+        # with a known start), the items it yields are known
+        nb = [b for b in I.facts.bodies.values() if b.get("name") == "next" and (b.get("impl_trait") or "").startswith("core::iter::traits::iterator::Iterator")
+              and re.match(re.escape(x.adt) + r"(<|$)", b.get("impl_self") or "")]
+        if len(nb) == 1:
+            depth_guard["unroll"] = True
+            try:
+                cell = st.new_cell(x)
+                items = []
+                for _i in range(65):
+                    outs = list(I._call_body(st, nb[0], [Ptr(cell)], 1))
+                    if len(outs) != 1 or outs[0][1] != "return" or outs[0][0] is not st:
+                        import os
+                        if os.environ.get("PV_DEBUG_ITER"):
+                            print("UNROLL stop", len(outs), [(o[1], o[0] is st) for o in outs], [o[0].cond[-2:] for o in outs])
+                        items = None
+                        break
+                    r = I.resolve(st, outs[0][2])
+                    if isinstance(r, Struct) and r.variant == "None":
+                        break
+                    if not (isinstance(r, Struct) and r.variant == "Some"):
+                        items = None
+                        break
+                    items.append(r.fields["0"])
+                else:
+                    items = None
+            finally:
+                depth_guard.pop("unroll", None)
+            if items is not None:
+                return iterv(items)
     if isinstance(x, Struct) and x.adt.endswith("ops::range::Range") and "start" in x.fields:
         a, b = I.resolve(st, x.fields["start"]), I.resolve(st, x.fields["end"])
         if isinstance(a, Aff) and isinstance(b, Aff) and a.is_const() and b.is_const() and b.const - a.const <= 64:
@@ -454,6 +488,11 @@ def m_terminal(I, st, info, args, depth):
                 elif isinstance(dst, Seq) and dst.elems is not None and isinstance(dst_p, Ptr):
                     I.store_to(s, dst_p, Seq(dst.name, dst.length.add(Aff(len(acc))), dst.elems + acc, None, dst.attrs, dst.kind))
                     res.append((s, "return", UNIT))
+                elif isinstance(dst, Seq) and isinstance(dst_p, Ptr) and not dst.attrs.get("top"):
+                    # a buffer known piece by piece: the yielded elements are its next piece
+                    c1, l1 = MD.seq_chunks(I, s, dst)
+                    I.store_to(s, dst_p, Seq("vec", l1.add(Aff(len(acc))), None, c1 + ([("elems", list(acc))] if acc else []), kind="vec"))
+                    res.append((s, "return", UNIT))
                 else:
                     return None
                 continue
@@ -476,6 +515,9 @@ def m_concat(I, st, info, args, depth):
     x = deref(I, st, args[0])
     if not (isinstance(x, Seq) and x.elems is not None):
         return None
+    evs = [deref(I, st, e) for e in x.elems]
+    if evs and all(isinstance(ev, StrV) and isinstance(ev.s, str) for ev in evs):
+        return ret(st, StrV("".join(ev.s for ev in evs)))        # known texts: the known concatenation
     chunks, ln = [], Aff(0)
     for e in x.elems:
         ev = deref(I, st, e)
